@@ -5,6 +5,9 @@
 (*   add(k)      appends k, returns the sum of the journal                 *)
 (*   addkw(k)    the same, argument passed by keyword                      *)
 (*   read        returns the length of the journal                         *)
+(*   note(k)     appends k; the member is declared oneway, so its caller   *)
+(*               gets nothing (None, written 0 - 1 here) whatever it       *)
+(*               returns                                                   *)
 (*   fail        raises (journal unchanged)                                *)
 (*   failafter(k) appends k, then raises                                   *)
 (*   unexposed / private / missing   names the object does not serve       *)
@@ -17,8 +20,9 @@ Sum(s) == LET f[i \in 0..Len(s)] == IF i = 0 THEN 0 ELSE f[i - 1] + s[i] IN f[Le
 IsFail(c) == c.m \in {"fail", "failafter", "unexposed", "private", "missing"}
 ExcOf(c) == IF c.m \in {"fail", "failafter"} THEN "ValueError" ELSE "AttributeError"
 \* effect of one call on the journal
-Effect(c, j) == IF c.m \in {"add", "addkw", "failafter"} THEN Append(j, c.k) ELSE j
-ResultOf(c, j) == IF c.m \in {"add", "addkw"} THEN Sum(Append(j, c.k)) ELSE Len(j)
+Effect(c, j) == IF c.m \in {"add", "addkw", "failafter", "note"} THEN Append(j, c.k) ELSE j
+None == 1000000      \* (stands for "nothing"; no sum or length gets that large)
+ResultOf(c, j) == IF c.m \in {"add", "addkw"} THEN Sum(Append(j, c.k)) ELSE IF c.m = "note" THEN None ELSE Len(j)
 \* Run: [results (of the succeeding prefix), exc ("" or the class of the first failure), pos (its index, 0 if none), journal]
 RECURSIVE RunFrom(_, _, _, _)
 RunFrom(calls, i, j, res) ==
